@@ -296,6 +296,12 @@ class Model():
                     return
                 field.remove(asset)
 
+        if found:
+            # The association still exists, but the asset is no longer part
+            # of it.
+            asset.associations = [assoc for assoc in asset.associations
+                if assoc is not association]
+
         if not found:
             raise LookupError(f'Asset "{asset.name}"({asset.id}) is not '
                 'part of the association provided.')
